@@ -47,6 +47,13 @@ def check_determine(ctx, case):
         intervals.determine(b, a, form != "long")
     except Exception:  # noqa - the reversed pair may lie outside the statement's domain
         pass
+    for x, y in ((a, a + "b"), (a, a + "bb"), (b, b + "b"), ("D", "Db")):
+        # unisons going down lie outside the statement's window but are legal questions (the library's own tests ask them)
+        for flag in (False, True):
+            try:
+                intervals.determine(x, y, flag)
+            except Exception:  # noqa
+                pass
     try:
         intervals.get_interval(a[0], 4, ["G", "Eb", "F#", "C", "Bb"][len(a + b) % 5])
         intervals.interval("D", b[0], 2)
@@ -107,6 +114,12 @@ def check_shorthand(ctx, case):
             intervals.from_shorthand(other, sh, up)
         except Exception:  # noqa - judged in that name's own case
             pass
+    for x, y in (("C", "Cbb"), ("C", "Cb"), (name, name + "bb"), ("D", "D##"), ("E", "E#")):
+        for flag in (True, False):  # naming questions (unisons going down and up among them) asked before: they hand out shorthands too
+            try:
+                intervals.determine(x, y, flag)
+            except Exception:  # noqa
+                pass
     early = []
     for order in (sorted(T.CONSTRUCTORS, reverse=True), sorted(T.CONSTRUCTORS)):
         try:
